@@ -5,6 +5,11 @@ import "math"
 // Trail records destructive changes so that they can be undone on backtracking.
 type Trail struct {
 	entries []trailEntry
+	// CheckSTO: every unification is first tested with the conservative STO detector; a positive
+	// test sets STO and fails the unification (the caller then abandons the case: ISO leaves
+	// unification of terms that are subject to occurs check undefined).
+	CheckSTO bool
+	STO      bool
 }
 
 type trailEntry struct {
@@ -57,6 +62,10 @@ func atomicEq(a, b Term) bool {
 // Unify is Robinson unification without occurs check (bindings recorded on tr).
 // On failure the caller must undo to its mark.
 func Unify(a, b Term, tr *Trail) bool {
+	if tr.CheckSTO && STO(a, b) {
+		tr.STO = true
+		return false
+	}
 	return unify(a, b, tr, false)
 }
 
